@@ -1473,6 +1473,14 @@ class Quantity(metaclass=QuantityMeta):
         """
         n_portions = len(ratios)
         total = sum(ratios)
+        if isinstance(total, Quantity):
+            # The sum of quantities of a quantized type is itself rounded
+            # (i. e. money amounts in different currencies), so that the
+            # fractions would not add up to 1: use the exact equivalents of
+            # the given quantities instead.
+            unit = total.unit
+            ratios = [ratio.equiv_amount(unit) for ratio in ratios]
+            total = sum(ratios)
         if isinstance(total, Rational):
             # force 'total' to a Decimal, if possible
             try:
